@@ -22,6 +22,7 @@ RULE = (
     "seed changes the replicates (sources with >= 20 scores). W3 (R-hashseed): the same seeded bootstrap computations on GroupScores with string labels are repeated in child processes started with other PYTHONHASHSEED values and must give bit-identical digests. W1: metrics by name (fnr, eer, threshold_at_fpr with method=, auc with kwargs, "
     "group_fnr) and callables with scalar / vector / matrix / integer output; all built-in sampling configurations; quantile/bc/bca; "
     "Scores and GroupScores. Non-trivial: always; distinct = hash of inputs."
+    ' Build-phase additions: uint8-valued and tiny-unit metrics, documented-default relations for BootstrapConfig / bootstrap_ci / bootstrap_sample.'
 )
 ASSUMPTIONS = ["both classes non-empty", "NumPy global RandomState seeded per case", "the C13 reference model for the interval formula"]
 SAMPLERS = [("replacement", None), ("replacement", "by_label"), ("single_pass", None), ("single_pass", "by_label"), ("dynamic", None), ("dynamic", "by_label"),
